@@ -4,10 +4,10 @@ import cxx_specs as XS
 
 PROPERTY = "C15"
 LEVEL = "proof"
-EXPLANATION = ("Proof over all failure points: with the k-th allocation request inside randomx_alloc_cache / randomx_alloc_dataset / randomx_create_vm failing (for every k and every flag combination, by exception or by NULL), the call returns NULL with nothing live and no exception escaping, success leaves exactly the expected objects live, and release returns all of them; deallocCache releases each resource a (possibly partially constructed) cache holds exactly once. The VM destructors and the allocators' own bookkeeping are not decided.")
+EXPLANATION = ("Proof over all failure points: with the k-th allocation request inside randomx_alloc_cache / randomx_alloc_dataset / randomx_create_vm failing (for every k and every flag combination, by exception or by NULL), the call returns NULL with nothing live and no exception escaping, success leaves exactly the expected objects live, and release returns all of them; deallocCache releases each resource a (possibly partially constructed) cache holds exactly once. The VM base destructor returns the scratchpad (the pointer allocate stored, with the full ScratchpadSize it was requested with - the request side is C14's allocate obligation), and the x86 JIT compiler object maps exactly CodeSize bytes in its constructor and unmaps the same extent in its destructor. Implicit (compiler-generated) destructors of the derived VM classes and process-level growth are not decided.")
 TRUSTED = ['exception-flow model of the extraction: a may-throw stub sets rxv_exc and control leaves the try block after the statement containing the call (exact here because every assigned object is still null at that point)', 'allocation stubs with a ghost ledger stand for operator new, the JIT compiler constructor and the aligned / large-page allocators', 'deallocCache / deallocDataset stubs in the alloc harness carry the contract enforced on the real deallocCache (deallocDataset: by inspection, one line)']
 ASSUMPTIONS = []
-NOT_DECIDED = ['VM destructors (~VmBase frees the scratchpad, ~CompiledVm the JIT buffer): bodies not under contract', "allocator internals (allocMemoryPages, allocLargePagesMemory, freePagedMemory) and JitCompilerX86's constructor / destructor", 'process-level growth (heap blocks, mapped bytes) over repeated cycles']
+NOT_DECIDED = ['implicit destructors of the derived VM classes (~CompiledVm destroying its JitCompiler member, virtual dispatch of delete machine): compiler-generated, no text to put under contract', "aligned allocator internals (AlignedAllocator -> _mm_malloc / _mm_free); the page allocators' contracts are enforced on virtual_memory.c by C16 and used here in place of the bodies", 'process-level growth (heap blocks, mapped bytes) over repeated cycles']
 INC = ["@suites/common"]
 ALLOC = [{"cxx": XS.RX_ALLOC, "out": "rx.c", "header": True}, "harness_alloc.c"]
 
@@ -17,6 +17,17 @@ OBLIGATIONS = [
     {"name": "dealloc_cache_releases_everything_held", "files": [{"cxx": XS.DEALLOC_CACHE, "out": "ds.c", "header": True}, "harness_dealloc.c"], "incdirs": INC,
      "defines": ['RXV_CONTRACTS_H="contracts_dealloc.h"'], "entry": "h_dealloc_cache", "enforce": "deallocCache",
      "replace": ["rxv_Allocator_freeMemory", "rxv_delete"], "expect_classes": ["postcondition"], "expect_min": 2, "replay": ALLOC_REPLAY},
+    {"name": "vm_destructor_returns_the_scratchpad_with_its_full_size", "files": [{"cxx": XS.VM_DTOR, "out": "vm.c", "header": True}, "harness_vm_dtor.c"], "incdirs": INC,
+     "defines": ['RXV_CONTRACTS_H="contracts_vm_dtor.h"', "softAes=0"], "entry": "h_vm_dtor", "enforce": "VmBase_dtor",
+     "replace": ["rxv_Allocator_freeMemory"], "expect_classes": ["postcondition", "assigns"], "expect_min": 2},
+] + [
+    {"name": n, "files": [XS.JIT_SIZES, {"cxx": XS.JIT_PROT, "out": "jit.c", "header": True}, "harness_jit_life.c"],
+     "incdirs": INC, "defines": ['RXV_CONTRACTS_H="contracts_jit_life.h"'], "entry": e, "enforce": fn,
+     "replace": ["allocMemoryPages", "setPagesRW", "setPagesRX", "setPagesRWX", "freePagedMemory"],
+     "checks": ["--bounds-check", "--pointer-check"], "expect_classes": ["postcondition"], "expect_min": 1}
+    for n, e, fn in (("jit_constructor_maps_the_code_buffer_once", "h_jit_ctor", "JitCompilerX86_ctor"),
+                     ("jit_destructor_unmaps_the_whole_code_buffer", "h_jit_dtor", "JitCompilerX86_dtor"))
+] + [
     {"name": "alloc_cache_fails_cleanly_and_release_returns_everything", "files": ALLOC, "incdirs": INC, "defines": ['RXV_CONTRACTS_H="decls_alloc.h"'], "entry": "h_alloc_cache",
      "expect_classes": ["assertion"], "expect_min": 8, "replay": ALLOC_REPLAY},
     {"name": "alloc_dataset_fails_cleanly_and_release_returns_everything", "files": ALLOC, "incdirs": INC, "defines": ['RXV_CONTRACTS_H="decls_alloc.h"'], "entry": "h_alloc_dataset",
